@@ -88,6 +88,8 @@ pub struct Violation {
     pub faulted: u8,
     /// a panic was observed or expected in the step's events
     pub panic_involved: bool,
+    /// the multiset of visible values differs from the model's (duplicate or lost value)
+    pub ownership: bool,
     /// replaces op/via in the signature when set (e.g. back end + alignment)
     pub context: String,
     pub detail: String,
@@ -266,7 +268,7 @@ impl<'a> Ctx<'a> {
             }
             None => (Op::Nop, 0, self.info.be[0].on_stack() || self.info.be[1].on_stack()),
         };
-        Violation { class, step, op, via, on_stack, faulted, panic_involved: false, context: String::new(), detail }
+        Violation { class, step, op, via, on_stack, faulted, panic_involved: false, ownership: false, context: String::new(), detail }
     }
 
     fn take_snaps(&mut self) {
@@ -343,6 +345,15 @@ impl<'a> Ctx<'a> {
                     format!("slot {} ({}): element storage not aligned to {}", s, self.info.be_of(s).label(), self.info.align),
                 ));
             }
+            if let Some(j) = sn.spare_bad {
+                return Err(self.viol(
+                    Class::MemEnv,
+                    step,
+                    p,
+                    faulted,
+                    format!("slot {}: spare-capacity slot {} (len {}, capacity {}) holds bytes that are neither the poison put there, fresh-storage fill, a destroyed value nor a whole element: the operation copied from outside the initialised elements or outside the capacity", s, j, sn.len, sn.cap),
+                ));
+            }
             if !sn.object_guards_ok {
                 return Err(self.viol(Class::ObjectGuard, step, p, faulted, format!("slot {}: bytes around the vector object overwritten", s)));
             }
@@ -417,6 +428,21 @@ impl<'a> Ctx<'a> {
         Ok(())
     }
 
+    /// visible values over all vectors and the pool, as a multiset, vs the model's
+    fn multiset_differs(&self) -> bool {
+        let mut a: Vec<u64> = Vec::new();
+        let mut b: Vec<u64> = Vec::new();
+        for s in 0..3 {
+            a.extend_from_slice(&self.snaps[s].tags);
+            if let Some(mv) = &self.model.vecs[s] {
+                b.extend_from_slice(&mv.tags);
+            }
+        }
+        a.sort_unstable();
+        b.sort_unstable();
+        a != b
+    }
+
     fn check_strict(&mut self, step: i32, p: &Pred, obs: &[Ev]) -> Result<(), Violation> {
         if obs.iter().any(|e| *e == Ev::Unsupported) {
             let diag = self.world.take_diag();
@@ -438,22 +464,20 @@ impl<'a> Ctx<'a> {
             if let Some(mv) = exp {
                 if sn.tags.iter().any(|t| *t == INVALID_TAG) {
                     let pos = sn.tags.iter().position(|t| *t == INVALID_TAG).unwrap();
-                    return Err(self.viol(
+                    let mut v = self.viol(
                         Class::BadValue,
                         step,
                         Some(p),
                         0,
                         format!("slot {}: element {} of {} is not a valid value (torn / poison / destroyed); expected {:?}", s, pos, sn.len, short_tags(&mv.tags)),
-                    ));
+                    );
+                    v.ownership = true;
+                    return Err(v);
                 }
                 if sn.tags != mv.tags {
-                    return Err(self.viol(
-                        Class::SnapMismatch,
-                        step,
-                        Some(p),
-                        0,
-                        format!("slot {}: contents {:?}, Vec model has {:?}", s, short_tags(&sn.tags), short_tags(&mv.tags)),
-                    ));
+                    let mut v = self.viol(Class::SnapMismatch, step, Some(p), 0, format!("slot {}: contents {:?}, Vec model has {:?}", s, short_tags(&sn.tags), short_tags(&mv.tags)));
+                    v.ownership = self.multiset_differs();
+                    return Err(v);
                 }
             }
         }
